@@ -386,3 +386,8 @@ package items
 //@   requires [this] this != nil
 //@   ensures [value] result == len(this.sets)
 //@   assigns nothing
+//@ func (*ItemSets).List
+//@   prop C02 C04
+//@   requires [this] this != nil
+//@   ensures [value] result == this.sets
+//@   assigns nothing
